@@ -1,11 +1,16 @@
 SPEC_PART = dict(
     props_file="C18_cpc",
-    legs=[dict(family="cpc", focus="codec", oracles=["layout_ok"], profiles=["debug"], n_quick=20, n_thorough=None,
-               mask=[0, 1, 2, 3, 4, 5, 6, 7, 8, 18])],
+    legs=[dict(family="cpc", focus="size", oracles=["layout_ok"], profiles=["debug", "release"], n_quick=None, n_thorough=None,
+               mask=[0, 1, 2, 3, 4, 5, 6, 7, 8, 18, 32])],
     trusted=["cpc: the bound on the surprising-value stream (safe_length_for_compressed_pair_buf) and the empirical "
              "max_serialized_bytes percentile have no theorem; the latter is a measured test, not an obligation"],
     assumptions=[],
-    covers="cpc: preamble <= 10 ints (c18_cpc_preamble_ints_le_10); image length = 4 * (preamble ints + window words + table words) "
+    covers="cpc: the 16-entry empirical max_serialized_bytes table has the shape sizes must have - strictly increasing, each entry "
+           "less than twice its predecessor (streams double with K, the header does not), at most the 1.5 K bytes of a 12-bit-per-byte "
+           "window, meeting the 0.6 K rule at lg_k 19 within 0.1 % (c18_cpc_max_size_table_shape); max_serialized_bytes is defined and "
+           "strictly increasing, less than doubling, over lg_k 4..26 across the switch to the binary64 0.6*K rule "
+           "(c18_cpc_max_serialized_bytes_monotone; the model's value is compared with the crate's for every lg_k, and 3 / 27 "
+           "must panic); preamble <= 10 ints (c18_cpc_preamble_ints_le_10); image length = 4 * (preamble ints + window words + table words) "
            "(c18_cpc_image_length); a window of K bytes takes between K and 12K bits with any of the 22 tables, so its padded "
            "stream fits ceil((12K+11)/32) words (c18_cpc_window_bits, c18_cpc_window_words); tie: on every serialized sketch the "
            "layout decoder's window word count lies in [ceil((K+11)/32), ceil((12K+11)/32)] and the byte length equals "
